@@ -1387,6 +1387,14 @@ class TOTP:
         for k, v in parse_qsl(result.query):
             if k in params:
                 raise cls._uri_parse_error(f"duplicate parameter ({k!r})")
+            if k == "cls":
+                # would collide with the first argument of _adapt_uri_params() below:
+                # ignored with a warning, like any other unknown parameter
+                warn(
+                    f"{cls}: unexpected parameters encountered in otp uri: {{{k!r}: {v!r}}}",
+                    exc.PasslibRuntimeWarning,
+                )
+                continue
             params[k] = v
 
         # synchronize issuer prefix w/ issuer param
@@ -1415,7 +1423,7 @@ class TOTP:
         converts uri params into constructor args.
         """
         assert label, "from_uri() failed to provide label"
-        if not secret:
+        if not secret or not secret.strip():
             raise cls._uri_parse_error("missing 'secret' parameter")
         # NOTE: a parameter omitted from the uri means the KeyUriFormat default
         #       (6 digits, SHA1, 30 seconds) -- not whatever default cls.using() set up.
